@@ -61,7 +61,8 @@ HmacCases == \A d \in {"md5", "sha1", "sha224", "sha256", "sha384", "sha512"} : 
 \* a stream that fails after some bytes must not influence a later call (sequence: failing stream, then a good one)
 StreamErrCases == \A d \in StreamDigests : \A n \in {1, 64, 100} : \A after \in {1, 63, 64} :
     Emit([fn |-> "digeststreamerr", s |-> <<>>, a |-> <<d, n, after>>, out |-> <<>>])
-B64Cases == \A enc \in {"std", "url", "rawstd", "rawurl"} : \A n \in {0, 1, 2, 3, 4, 5, 6, 31, 32, 33} : \A bad \in {"none", "char", "trunc", "pad"} :
+\* (also encodings derived with WithPadding / Strict: they are no predefined value a helper could compare against)
+B64Cases == \A enc \in {"std", "url", "rawstd", "rawurl", "std-nopad", "url-nopad", "rawstd-strict", "std-star"} : \A n \in {0, 1, 2, 3, 4, 5, 6, 31, 32, 33} : \A bad \in {"none", "char", "trunc", "pad"} :
     Emit([fn |-> "base64", s |-> <<>>, a |-> <<enc, n, bad>>, out |-> <<>>])
 \* IPv4: octets by class; LongToIPv4 / IPv4ToLong are inverse for all 2^32 addresses
 Octets == {0, 1, 9, 10, 99, 100, 127, 128, 254, 255}
